@@ -2,6 +2,7 @@
 """Prints the prompt given to an independent 'break' sub-agent for one property (property text only)."""
 import json, sys
 pid = sys.argv[1]
+round2 = len(sys.argv) > 2 and sys.argv[2] == "--round2"
 wt = "/tmp/brk-%s" % pid
 for l in open('/verif/properties.jsonl'):
     p = json.loads(l)
@@ -9,6 +10,9 @@ for l in open('/verif/properties.jsonl'):
         break
 else:
     sys.exit("no such property")
+ROUND2 = ""
+if round2:
+    ROUND2 = ("This is a SECOND round: an earlier round already produced the obvious breaks (direct edits of the central comparison, validation or loop of the main function the property is about). Look further from the centre: helper functions, event plumbing and re-sync requests, caches / short-circuit optimisations ('nothing changed, skip'), error and retry paths, cleanup on delete / rename / reconfiguration, rarely used options and option combinations, state kept across reconnects or restarts, aliasing of shared slices / maps, value-vs-pointer receivers, lock scope. Prefer changes whose effect shows only after a particular sequence of events.\n\n")
 print(f"""You are given one semantic property of MetalLB (bare-metal Kubernetes LoadBalancer: controller with an IP-pool allocator, speaker with native BGP / FRR config generation / ARP-NDP layer-2 announcer; Go) and your own scratch git worktree of its repository at {wt}. Work ONLY inside {wt} (never touch /repo, never read or touch /verif).
 
 PROPERTY {p['id']}: {p['title']}
@@ -23,4 +27,4 @@ Procedure per change k = 1,2,3: edit the source in the worktree; run the existin
 
 Environment: no network. Use `export GOFLAGS=-mod=mod GOPROXY=off` and do NOT set GOSUMDB or GOTOOLCHAIN (both break the build here). The default `go` works from inside the worktree. Keep it efficient: read the code the property is about, pick subtle spots, do not rewrite large pieces.
 
-Final reply: a short list of the changes (one paragraph each: file/function changed, what breaks, what is needed to manifest, demo command), and any change you tried that the existing tests caught (so it was discarded).""")
+{ROUND2}Final reply: a short list of the changes (one paragraph each: file/function changed, what breaks, what is needed to manifest, demo command), and any change you tried that the existing tests caught (so it was discarded).""")
